@@ -8,21 +8,28 @@ META = {
     'technique': 'Lean 4 refinement proof: explicit-heap model of list.c (next/head/tail cells, the tail left stale or set to the bogus '
                  '"address of the head field" exactly where the C does) refines abstract sequences, one lemma per C function, lifted to all '
                  'histories over any number of lists/iterators by induction; model tied to the C by differential runs',
-    'level_text': 'For every history (any length, any number of lists, iterators and nodes) of insert, push, sorted insert, extract, peek, empty, '
-                  'iterate, iterator next/insert/remove, contains (with and without iterator) and remove in which a node is never inserted while it is a member '
-                  'of a list, the model of list.c returns exactly what the abstract sequences return, every traversal spells the abstract sequence, other lists are '
-                  'untouched, every removed/extracted node has next = NULL (immediately reusable), a stale tail is never dereferenced, and sorted insertion into a '
-                  'list sorted by any total preorder keeps it sorted with the new node after its equals.',
-    'level_note': 'Trusted: Lean kernel (standard axioms only); the hand model of list.c is validated on every run against the real list.c '
-                  '(random structured histories to length 200 over 8 nodes x 3 lists x 4 iterators; thorough: all histories of a small scope) — that tie is sampling, not proof. '
-                  'Pointer comparison/aliasing of C objects is modelled by distinct ids; the comparator is a pure function of the two nodes.',
+    'level_text': 'Proved (Lean, all histories): for every sequence of calls of any length, over any number of lists and iterators and a node pool of any size N, '
+                  'of list_insert, list_push, list_insert_sorted, list_extract, list_peek, list_empty, list_iterate, list_iterator_next/insert/remove, list_contains '
+                  '(with and without iterator) and list_remove in which a node is never inserted while it is a member of a list (iterators used while the node they hang '
+                  'off is still a member; list_iterator_remove only with a current node; sorted insertion only into a list sorted by a total-preorder comparator), '
+                  'the statement-by-statement heap model of list.c returns exactly what abstract sequences return (extracted node, found/not found, node after a removal, '
+                  'iterator position), every traversal spells the abstract sequence, lists other than the one operated on are untouched, every removed/extracted node has '
+                  'next = NULL and can be inserted anywhere at once, the tail is dereferenced only while it is the genuine last node (stale and bogus tails of empty lists are '
+                  'tolerated by the invariant and never followed), N+1 loop iterations always suffice, and list_insert_sorted keeps a sorted list sorted with the new node after '
+                  'all its equals. Sampled (not proved): that the model is list.c.',
+    'level_note': 'Trusted: Lean kernel (standard axioms only, no bv_decide); the hand model of list.c is validated on every run against the real list.c built with ASan '
+                  '(corpus of past failures; structured random histories to length 200 over 8 nodes x 3 lists x 4 iterators biased to removal of the last/only node then any insertion, '
+                  'iterators past the end, equal keys; every call from every reachable state of a 3-node x 2-list x 1-iterator scope to the fixed point; thorough tier adds all histories '
+                  'of length <= 4 of that scope and two larger state spaces) - that tie is sampling, not proof. The Python oracle used for gating is checked against the Lean spec on every run. '
+                  'Distinct C objects are distinct ids; the comparator is a pure total function of the two nodes; a dereference of a non-node pointer is an error result of the model '
+                  '(proved unreachable in scope), not given a meaning.',
     'design_ref': '§6 C09',
 }
 REQUIRED = ['Librfn.C09.' + t for t in (
     'list_history_refines', 'list_history_refines_init', 'step_refines', 'rel_init', 'rel_observations', 'isList_frame',
     'insert_refines', 'push_refines', 'extract_refines', 'peek_refines', 'empty_refines', 'iterate_refines', 'iteratorNext_refines',
     'iteratorInsert_refines', 'iteratorRemove_refines', 'iteratorRemove_at_end', 'contains_refines', 'remove_refines',
-    'insertSorted_refines', 'insert_sorted_stable', 'traverse_refines', 'keyCmp_totalPreorder')]
+    'insertSorted_refines', 'insert_sorted_stable', 'traverse_refines', 'keyCmp_totalPreorder', 'tail_is_last_when_nonempty')]
 
 NN, NL, NK = 8, 3, 4
 HEAD = 'H'
@@ -301,8 +308,8 @@ def gen_history(rng, maxlen, nn=NN, nl=NL, nk=NK, theme=None):
             c = rng.below(4)
             if c == 0:
                 any_insert(l)
-            elif c == 1 and s.L[l]:
-                emit(f'extract {l}')
+            elif c == 1:
+                emit(f'extract {l}')                         # also on an empty list (returns NULL)
             elif c == 2:
                 emit(f'remove {l} {rng.below(nn)}')
             else:
@@ -397,6 +404,8 @@ def bfs_states(ctx, exe, depth, nn, nl, nk):
             if ctx.violations or ctx.broken:
                 return agreed, levels, False
         total += len(cands)
+        for h in cands:
+            ctx.count(tuple(h))
         frontier = []
         for h, ms in zip(cands, model_states(ctx, cands)):
             k = state_key(h, ms)
@@ -419,6 +428,8 @@ def harness(ctx):
 
 def corpus():
     hs = []
+    if os.environ.get('C09_NO_CORPUS'):      # mutation testing of the generator alone
+        return hs
     for p in sorted(glob.glob(os.path.join(vlib.VERIF, 'corpus', 'C09', '*.txt'))):
         h = [l.strip() for l in open(p) if l.strip() and not l.startswith('#')]
         if h and valid(h):
@@ -440,6 +451,52 @@ def lean_spec_agrees(ctx, hs):
             ctx.broken.append(f'Lean spec (Spec/ListSeq.lean) differs from the Python oracle on history {h[:(k or 0) + 1]}: lean={g[k] if g and k is not None and k < len(g) else None}')
             return False
     return True
+
+
+def out_of_scope_stream(ctx, exe, rng, count):
+    """list_insert_sorted into lists that are NOT sorted: outside the property (nothing is claimed, nothing gates);
+    the model is still defined there (`sortedIns`), so a divergence is recorded as a note about the tie only"""
+    hs = []
+    for _ in range(count):
+        h = [f'setkey {n} {rng.below(4)}' for n in range(NN)]
+        nodes = rng.shuffle(list(range(NN)))
+        k = rng.range(2, 5)
+        h += [f"{rng.choice(['insert', 'push'])} 0 {n}" for n in nodes[:k]]
+        h += [f'sorted 0 {n}' for n in nodes[k:]]
+        hs.append(h)
+    text = ''.join('reset\n' + '\n'.join(h) + '\n--\n' for h in hs)
+    impl = vlib.split_histories(vlib.run_exe([exe], text, 120))
+    mo = ctx.run_model(['list'], text, timeout=120).split('\n')
+    if mo and mo[-1] == '':
+        mo.pop()
+    model = vlib.split_histories(mo)
+    diffs = sum(1 for i in range(len(hs)) if i >= len(impl) or i >= len(model) or impl[i] != model[i])
+    ctx.cov['out_of_scope_stream'] = {'what': 'list_insert_sorted into unsorted lists (outside the scope; never gates)',
+                                      'histories': len(hs), 'impl_differs_from_model': diffs}
+    if diffs:
+        ctx.notes.append(f'out-of-scope stream: model and implementation differ on {diffs}/{len(hs)} histories with sorted insertion into unsorted lists (not a finding)')
+
+
+def line_coverage(ctx, hs):
+    """thorough tier: which lines of list.c did the generated histories execute (gcov of an uninstrumented-by-ASan build)"""
+    import re, subprocess
+    d = os.path.join(ctx.tmp, 'cov')
+    os.makedirs(d, exist_ok=True)
+    exe = os.path.join(d, 'hcov')
+    cmd = ['gcc', '-g', '-O0', '--coverage', '-I' + os.path.join(vlib.REPO, 'include'), '-o', exe,
+           os.path.join(vlib.VERIF, 'harness/h_list.c'), os.path.join(vlib.REPO, 'librfn/list.c')]
+    if subprocess.run(cmd, cwd=d, capture_output=True).returncode != 0:
+        return None
+    text = ''.join('reset\n' + '\n'.join(h) + '\n--\n' for h in hs)
+    subprocess.run([exe], input=text, cwd=d, capture_output=True, text=True, timeout=300)
+    p = subprocess.run(['gcov', '-o', d, 'hcov-list.gcda'], cwd=d, capture_output=True, text=True)
+    try:
+        rep = open(os.path.join(d, 'list.c.gcov')).read()
+    except OSError:
+        return {'error': (p.stdout + p.stderr)[-300:]}
+    missed = [ln.split(':', 2)[1].strip() + ':' + ln.split(':', 2)[2].strip() for ln in rep.split('\n') if ln.lstrip().startswith('#####')]
+    ran = sum(1 for ln in rep.split('\n') if re.match(r'\s*\d+\*?:', ln))
+    return {'file': 'librfn/list.c', 'lines_executed': ran, 'lines_not_executed': missed}
 
 
 def histogram(hs):
@@ -520,8 +577,6 @@ def run(ctx):
         agreed += a
         spaces.append({'nodes_lists_iterators': list(scope), 'levels': levels, 'fixed_point_reached': fix,
                        'distinct_states': 1 + sum(l['new_states'] for l in levels), 'calls_checked': sum(l['calls_checked'] for l in levels)})
-        for l in levels:
-            ctx.cov['evaluations'] += l['calls_checked']
     ctx.cov['exhaustive'] = bool(spaces) and all(sp['fixed_point_reached'] for sp in spaces) and not ctx.violations and not ctx.broken
     ctx.cov['states'] = sum(sp['distinct_states'] for sp in spaces)
     ctx.cov['transitions'] = sum(sp['calls_checked'] for sp in spaces)
@@ -531,6 +586,9 @@ def run(ctx):
         'spaces': spaces}
     if not ctx.violations:
         lean_spec_agrees(ctx, hs[:400])
+        out_of_scope_stream(ctx, exe, rng, 40 if quick else 400)
+    if not quick:
+        ctx.cov['line_coverage_of_random_histories'] = line_coverage(ctx, hs)
     for h in hs:
         ctx.count(tuple(h), nontrivial=len(h) >= 3)
     for h in exh:
